@@ -189,6 +189,8 @@ def run_property(pid, tier="quick", seed=0, relock=False, only=None, verbose=Tru
                                             "count": rt.get("replay_count", 20000), "time_s": 60}, timeout=900,
                        asan=rt.get("asan", False))
         js = r["json"] or {}
+        # failures of a class that the stand-in lists as a known finding are not new violations
+        js["failures"] = [f for f in js.get("failures", []) if not all(":KNOWN:" in x for x in f.get("failed", ["x"]))]
         if js.get("failures"):
             path = write_replay(pid, o.oid, {"property": pid, "obligation": o.oid, "answer": o.status, "reason": o.reason,
                                              "why": "the obligation could not be decided by the solvers; the runtime form "
